@@ -28,15 +28,33 @@ def read_message(d):
     if i == len(d):
         return addr, []
     tags, i = _string(d, i)
-    if not tags.startswith(','):
-        raise Bad('no type tag string')
+    if tags.startswith(','):
+        tags = tags[1:]
     args = []
-    for t in tags[1:]:
+    for t in tags:
         if t == 'i':
             if i + 4 > len(d):
                 raise Bad('short')
             args.append(struct.unpack('>i', d[i:i + 4])[0])
             i += 4
+        elif t == 'f':
+            if i + 4 > len(d):
+                raise Bad('short')
+            args.append(struct.unpack('>f', d[i:i + 4])[0])
+            i += 4
+        elif t == 'd':
+            if i + 8 > len(d):
+                raise Bad('short')
+            args.append(struct.unpack('>d', d[i:i + 8])[0])
+            i += 8
+        elif t == 'b':
+            if i + 4 > len(d):
+                raise Bad('short')
+            n = struct.unpack('>i', d[i:i + 4])[0]
+            if n < 0 or i + 4 + n > len(d):
+                raise Bad('blob')
+            args.append(d[i + 4:i + 4 + n])
+            i += 4 + n + (-n % 4)
         elif t == 's':
             s, i = _string(d, i)
             args.append(s)
@@ -101,7 +119,20 @@ def bundle_structure_ok(d):
 
 
 PREDS = {'pos': lambda x: isinstance(x, int) and not isinstance(x, bool) and x > 0,
-         'isstr': lambda x: isinstance(x, str)}
+         'isstr': lambda x: isinstance(x, str), 'ident': lambda x: x}
+
+
+def _dec(e):
+    k, v = e
+    if k == 'i':
+        return int(v)
+    if k == 's':
+        return bytes(v).decode('utf-8')
+    if k == 'f':
+        return struct.unpack('>d', struct.pack('>Q', int(v)))[0]
+    if k == 'B':
+        return bool(v)
+    raise ValueError(e)
 
 
 class RefDispatch:
@@ -118,9 +149,14 @@ class RefDispatch:
         """-> None, or the list of expected (rid, tag) per dispatcher {'exact': [...], 'matching': [...]}"""
         k = op[0]
         if k == 'create':
-            _, path, matching, src, rif, tmpl, tag = op
+            _, path, matching, src, rif, tmpl, f = op
+            if path == '':
+                return None                                  # refused (IndexError)
+            if isinstance(tmpl, dict):
+                tmpl = [tmpl['scalar']]
             self.r.append(dict(path=path if path.startswith('/') else '/' + path, matching=matching, src=src,
-                               port=None if rif is None else self.ports[rif], tmpl=tmpl, tag=tag, oneshot=False, enabled=True))
+                               port=None if rif is None else (0 if rif == 'zero' else self.ports[rif]), tmpl=tmpl, tag=f['tag'],
+                               oneshot=False, enabled=True))
             self.order.append(len(self.r) - 1)
         elif k == 'enable':
             if not self.r[op[1]]['enabled']:
@@ -131,7 +167,7 @@ class RefDispatch:
         elif k == 'one_shot':
             self.r[op[1]]['oneshot'] = True
         elif k == 'set_func':
-            self.r[op[1]]['tag'] = op[2]
+            self.r[op[1]]['tag'] = op[2]['tag']
             self.r[op[1]]['oneshot'] = False
         elif k == 'cmd_period':
             for i in list(self.order):
@@ -179,10 +215,8 @@ class RefDispatch:
             if it[0] == 'pred':
                 if not PREDS[it[1]](args[j]):
                     return False
-            else:
-                v = int(it[1][1]) if it[1][0] == 'i' else bytes(it[1][1]).decode('utf-8')
-                if type(v) is not type(args[j]) or v != args[j]:
-                    return False
+            elif _dec(it[1]) != args[j]:                   # Python ==, as the template says "equal"
+                return False
         return True
 
 
@@ -190,8 +224,15 @@ def check_history(ops, impl, ports):
     """-> None or (op index, text) for the first operation where the implementation's invocations
     are not the ones the property demands.  Exact dispatcher: same sequence.  Matching dispatcher:
     same multiset (its cross-path order is reported separately)."""
+    fns = [op[6] for op in ops if op[0] == 'create'] + [op[2] for op in ops if op[0] == 'set_func']
+    if any(f.get('share') or f.get('raises') for f in fns) or \
+            any(isinstance(op[5], list) and ['pred', 'gt5raw'] in op[5] for op in ops if op[0] == 'create'):
+        return None          # shared function objects / raising callbacks: no independent claim here
     ref = RefDispatch(ports)
-    for n, (op, log) in enumerate(zip(ops, impl)):
+    for n, (op, rec) in enumerate(zip(ops, impl)):
+        log = rec['log'] if isinstance(rec, dict) else rec
+        if op[0] == 'create' and op[1] == '' and log == ['OPERROR:IndexError']:
+            continue
         exp = ref.op(op)
         marks = [x for x in log if isinstance(x, str)]
         if marks:
